@@ -23,5 +23,16 @@ Replay(reqs, j, n, value) ==
                      \cup (IF Eq(value, Candidate(r.bytes, n)) THEN {} ELSE {"value-is-not-the-function-of-the-bytes"})
                 ELSE Replay(reqs, j + 1, n, value)
 
+(* the same for an entropy source that cannot be observed (an object of the library's own, e.g. util.PRNG): the harness   *)
+(* knows the byte stream and cuts it into chunks; the value must be the candidate of the FIRST acceptable chunk            *)
+RECURSIVE ReplayFirst(_, _, _, _)
+ReplayFirst(reqs, j, n, value) ==
+  IF j > Len(reqs) THEN {"no-accepted-chunk"}
+  ELSE LET r == reqs[j]
+       IN  IF r.size # ChunkLen(n) \/ Len(r.bytes) # r.size THEN {"harness-chunking-is-not-the-specification's"}
+           ELSE IF Accepts(r.bytes, n)
+                THEN (IF Eq(value, Candidate(r.bytes, n)) THEN {} ELSE {"value-is-not-the-function-of-the-bytes"})
+                ELSE ReplayFirst(reqs, j + 1, n, value)
+
 InRange(v, n) == ~IsZero(v) /\ Lt(v, n)
 =============================================================================
